@@ -37,12 +37,20 @@ def mk_container(pp, subs, name, mix):
     return pp.Container(name, 'inf L', [(subs[PARTS[i][0]], PARTS[i][1]) for i in mix])
 
 
+# plates without any liquid (mixture index -1, -2): every well holds solids and / or enzyme only - what a dried plate looks like
+DRY_PLATES = [[[2], [3], [2, 3], [2, 4]], [[2, 5], [5], [7], [4, 7]]]
+
+
 def mk_plate(pp, subs, mi):
     plate = pp.Plate('R', '50 mL', rows=2, columns=2)
     for j, (r, c) in enumerate([(1, 1), (1, 2), (2, 1), (2, 2)]):
-        mix = MIXTURES[(mi + 7 * j) % len(MIXTURES)]
+        mix = MIXTURES[(mi + 7 * j) % len(MIXTURES)] if mi >= 0 else DRY_PLATES[-mi - 1][j]
         src = mk_container(pp, subs, 'src', mix)
-        _, plate = pp.Plate.transfer(src, plate[r, c], f"{src.volume!r} {pp.config.volume_storage_unit}")
+        if src.volume > 0:
+            _, plate = pp.Plate.transfer(src, plate[r, c], f"{src.volume!r} {pp.config.volume_storage_unit}")
+        else:           # solids / enzymes without volume (a configuration): move them by mass
+            g = float(ref.measure(pp, src.contents, 'g')) * 0.999       # (not all of it: the printed mass may round up)
+            _, plate = pp.Plate.transfer(src, plate[r, c], f"{g!r} g")
     return plate
 
 
@@ -79,7 +87,8 @@ def run_case(item):
     arg = e1.CLASSES[what] if what in e1.CLASSES else subs[what]
     case = {'vidx': vidx, 'item': list(item)}
     feat = f"object={'container' if form == 'container' else 'plate' if form == 'plate' else 'slice'},via={via}," \
-           f"selector={'class' if what in e1.CLASSES else 'substance'}" + (',twins' if mi >= N_PLAIN else '')
+           f"selector={'class' if what in e1.CLASSES else 'substance'}" + (',twins' if mi >= N_PLAIN else '') + \
+           (',dry-plate' if mi < 0 else '')
     env.clear_caches(pp)
     other = pp.Container('Z', 'inf L', [(subs['tea'], '1 mL')])
     if form == 'container':
@@ -188,7 +197,7 @@ def run(col):
     pp = env.load()
     col.rule = ("all 31 non-empty mixtures of {2 liquids, 2 solids, 1 enzyme} x 9 selectors (each substance, each class, an absent "
                 "substance), plus every mixture of a substance with a TWIN (another substance carrying its name: hydrate, other "
-                "grade, inactive preparation) and up to two more parts x 12 selectors x {container, whole 2x2 plate with four different mixtures, 12 slice geometries} x {direct, recipe "
+                "grade, inactive preparation) and up to two more parts x 12 selectors, plus two plates without any liquid in any well x {container, whole 2x2 plate with four different mixtures, 12 slice geometries} x {direct, recipe "
                 "step}; result contents must equal the argument restricted to the non-selected substances exactly, volume by "
                 "the reference model, unaddressed wells bit-identical; in a recipe get_substance_used(destinations=[another "
                 "object]) and the out-flow of the object must equal the removed amounts of exactly the addressed wells. "
@@ -200,11 +209,13 @@ def run(col):
         items = [(mi, what, form, via) for mi in range(len(MIXTURES))
                  for what in SELECTORS + (TWIN_SELECTORS if mi >= N_PLAIN else []) for form in forms
                  for via in ('direct', 'recipe')]
+        items += [(mi, what, form, via) for mi in (-1, -2) for what in SELECTORS + TWIN_SELECTORS for form in forms[1:]
+                  for via in ('direct', 'recipe')]
         res = par.pmap(run_case, items)
         classes = set()
         for it, (vs, oc) in zip(items, res):
             col.add(vs)
-            classes.add((it[2], it[3], it[1], len(MIXTURES[it[0]]), oc))
+            classes.add((it[2], it[3], it[1], len(MIXTURES[it[0]]) if it[0] >= 0 else 'dry', oc))
         col.count('transitions', len(items))
         col.count('traces', len(items))
         col.count('evaluations', len(items))
